@@ -57,7 +57,9 @@ func Build(ctx context.Context, spec *GraphSpec, bo BuildOpts) (r compose.Runnab
 // BuildPanic: Add*/Compile panicked (always a defect of the framework: C20 territory).
 type BuildPanic struct{ P *mon.Panic }
 
-func (b *BuildPanic) Error() string { return "panic during build/compile: " + b.P.Value + "\n" + b.P.Stack }
+func (b *BuildPanic) Error() string {
+	return "panic during build/compile: " + b.P.Value + "\n" + b.P.Stack
+}
 
 func build(ctx context.Context, spec *GraphSpec, bo BuildOpts) (compose.Runnable[V, V], error) {
 	b := &builder{bo: bo}
